@@ -300,7 +300,7 @@ impl Shrinker {
         }
         let last = best.scenarios.len() - 1;
         // 1. cheap global simplifications
-        for what in ["yield_off", "rekey_off", "start_at_begin", "hashkey_zero", "no_clock_jumps", "no_disk_faults", "no_write_faults", "no_exit_ops", "default_stacks"] {
+        for what in ["yield_off", "rekey_off", "start_at_begin", "hashkey_zero", "no_clock_jumps", "no_disk_faults", "no_write_faults", "no_exit_ops", "default_stacks", "all_cpus"] {
             let mut c = best.clone();
             {
                 let sc = &mut c.scenarios[last];
@@ -341,6 +341,11 @@ impl Shrinker {
                     "no_exit_ops" => {
                         for t in sc.threads.iter_mut() {
                             t.exit_ops.clear();
+                        }
+                    }
+                    "all_cpus" => {
+                        for t in sc.threads.iter_mut() {
+                            t.cpus = 0;
                         }
                     }
                     "default_stacks" => {
